@@ -19,7 +19,7 @@ from fractions import Fraction
 
 import numpy as np
 
-from . import c13_adv, common
+from . import c13_adv, c13_hist, common
 from .common import Ctx, hexs
 
 C = 299792458
@@ -544,6 +544,8 @@ def run(ctx: Ctx):
                 one_file(ctx, impl, drv, gen_file(rng, True))
         # adversarial files for the line grouping (after the generated ones: their random stream stays what it was)
         c13_adv.run_adv(ctx, sys.modules[__name__], impl, drv, ctx.budget(8, 80))
+        # histories: parses after constant.use_source blocks (ended, nested, left by an exception) in the same process
+        c13_hist.history_cases(ctx, sys.modules[__name__], impl, rng, ctx.budget(25, 150))
     finally:
         impl.cleanup()
     ctx.traces = ctx.evaluations
@@ -556,6 +558,8 @@ def replay(payload):
         payload = {**payload, "replay": c, "key": payload["disagreements"][0]["correspondence"]}
     if "adv" in c:
         return c13_adv.replay_adv(sys.modules[__name__], payload)
+    if "history" in c:
+        return c13_hist.replay_history(sys.modules[__name__], payload)
     ctx = Ctx("C13", "quick", 0)
     impl = Impl()
     try:
